@@ -236,6 +236,12 @@ class TypeOracle:
                     with open(tmp, "wb") as fh:
                         pickle.dump(self.table, fh)
                     os.replace(tmp, path)
+                    old = sorted(
+                        (os.path.join(CACHE_DIR, f) for f in os.listdir(CACHE_DIR) if f.startswith("types-")),
+                        key=os.path.getmtime,
+                    )
+                    for f in old[:-4]:
+                        os.remove(f)
                 except OSError:
                     pass
         self.types = self.table["types"]
